@@ -728,8 +728,140 @@ func main() {
 		}
 		b.WriteString(fmt.Sprintf("  (%s, %s, %v)", leanStr(f.fn), leanList(f.writes), f.waits))
 	}
-	b.WriteString("]\n\nend Generated\n")
+	b.WriteString("]\n\n")
+
+	/* the key dispatch of ui.State.Update: per case of `switch input`, the keys and, in source
+	   order, the methods called and the dynamic types asked for; plus the special key constants
+	   and the pre-dispatch comparisons of `input` */
+	b.WriteString("/-- per case of `switch input` in ui.State.Update: keys, then the calls and type assertions of its body in source order -/\ndef keymap : List (List String × List String) := [\n")
+	km := keymap(uif)
+	for i, k := range km {
+		if i > 0 {
+			b.WriteString(",\n")
+		}
+		b.WriteString("  (" + leanList(k.keys) + ", " + leanList(k.calls) + ")")
+	}
+	b.WriteString("]\n\n")
+	b.WriteString("/-- the integer constants declared in ui/ui.go (name=value) -/\ndef uiConstants : List String := " + leanList(uiConstants(uif)) + "\n\n")
+	b.WriteString("/-- every comparison of `input` with something in ui.State.Update outside the final switch, in source order -/\ndef inputTests : List String := " + leanList(inputTests(uif)) + "\n\n")
+	b.WriteString("end Generated\n")
 	fmt.Print(b.String())
+}
+
+type keyCase struct {
+	keys  []string
+	calls []string
+}
+
+func updateDecl(f *ast.File) *ast.FuncDecl {
+	for _, d := range f.Decls {
+		if fd, ok := d.(*ast.FuncDecl); ok && fd.Name.Name == "Update" && fd.Recv != nil {
+			return fd
+		}
+	}
+	return nil
+}
+
+func inputSwitch(fd *ast.FuncDecl) *ast.SwitchStmt {
+	var last *ast.SwitchStmt
+	if fd == nil {
+		return nil
+	}
+	ast.Inspect(fd.Body, func(n ast.Node) bool {
+		if sw, ok := n.(*ast.SwitchStmt); ok {
+			if id, ok := sw.Tag.(*ast.Ident); ok && id.Name == "input" {
+				last = sw
+			}
+		}
+		return true
+	})
+	return last
+}
+
+func keymap(f *ast.File) []keyCase {
+	out := []keyCase{}
+	sw := inputSwitch(updateDecl(f))
+	if sw == nil {
+		return out
+	}
+	for _, st := range sw.Body.List {
+		cc, ok := st.(*ast.CaseClause)
+		if !ok {
+			continue
+		}
+		kc := keyCase{keys: []string{}, calls: []string{}}
+		for _, e := range cc.List {
+			kc.keys = append(kc.keys, exprString(e))
+		}
+		if cc.List == nil {
+			kc.keys = append(kc.keys, "default")
+		}
+		for _, body := range cc.Body {
+			ast.Inspect(body, func(n ast.Node) bool {
+				switch x := n.(type) {
+				case *ast.CallExpr:
+					switch fn := x.Fun.(type) {
+					case *ast.SelectorExpr:
+						kc.calls = append(kc.calls, fn.Sel.Name)
+					case *ast.Ident:
+						kc.calls = append(kc.calls, fn.Name)
+					}
+				case *ast.TypeAssertExpr:
+					if x.Type != nil {
+						kc.calls = append(kc.calls, "as "+exprString(x.Type))
+					}
+				}
+				return true
+			})
+		}
+		out = append(out, kc)
+	}
+	return out
+}
+
+func uiConstants(f *ast.File) []string {
+	out := []string{}
+	for _, d := range f.Decls {
+		gd, ok := d.(*ast.GenDecl)
+		if !ok || gd.Tok.String() != "const" {
+			continue
+		}
+		for _, sp := range gd.Specs {
+			vs, ok := sp.(*ast.ValueSpec)
+			if !ok {
+				continue
+			}
+			for i, n := range vs.Names {
+				if i < len(vs.Values) {
+					if lit, ok := vs.Values[i].(*ast.BasicLit); ok {
+						out = append(out, n.Name+"="+lit.Value)
+					}
+				}
+			}
+		}
+	}
+	return out
+}
+
+func inputTests(f *ast.File) []string {
+	out := []string{}
+	fd := updateDecl(f)
+	if fd == nil {
+		return out
+	}
+	sw := inputSwitch(fd)
+	ast.Inspect(fd.Body, func(n ast.Node) bool {
+		if n == ast.Node(sw) && sw != nil {
+			return false
+		}
+		if be, ok := n.(*ast.BinaryExpr); ok {
+			if id, ok := be.X.(*ast.Ident); ok && id.Name == "input" {
+				out = append(out, exprString(be))
+			}
+		}
+		return true
+	})
+	return out
 }
 
 func orZero(s string) string {
